@@ -20,7 +20,12 @@ META = {
     "explanation": "Only the move-number arithmetic is decided; see not_applicable reasoning in DESIGN.md for the rest.",
 }
 MANIFEST = {
-    "text": "placeholder", "note": "placeholder", "design_ref": "DESIGN.md s.4 C06",
+    "text": "Partial (kernel-level) claim, hence 'other': for EVERY u32 move number and both sides the solver shows the move-number -> ply-counter arithmetic of the "
+            "reader does not panic and is the inverse of what the writer prints (Game::turn) on canonical numbers. The round trip of whole FEN strings, 'any string "
+            "yields a position or an error' and the rank-width rejection are NOT claimed: the nom/Vec/HashSet/format! code of fen::parse and fen::write does not "
+            "finish symbolic execution within reach (measured, see DESIGN.md).",
+    "note": "Only plies_from_fullmove_number is decided; everything string-level is outside the claim.",
+    "design_ref": "DESIGN.md s.4 C06",
 }
 
 
